@@ -196,9 +196,9 @@ theorem suffix_eq_last (v : List Rat) (hs : sortedLE v = true) (m i : Nat)
   simp only [List.length_drop] at this
   omega
 
-/-- **`isValid` ⇒ well-formed** (on separated knot values): sorted, first and last value exactly
-`degree+1` times, `npts > degree`, every multiplicity at most `degree+1` -/
-theorem isValid_WF (v : List Rat) (hsep : Separated v) (h : isValid v none = true) :
+/-- **`isValid` ⇒ well-formed** (for every list; before the repair of the multiplicity check this needed separated knot
+values): sorted, first and last value exactly `degree+1` times, `npts > degree`, every multiplicity at most `degree+1` -/
+theorem isValid_WF_exact (v : List Rat) (h : isValid v none = true) :
     WF v (cnt v (v.headD 0) - 1) := by
   obtain ⟨hs, hf, hl, hn⟩ := isValid_core v h
   set d := cnt v (v.headD 0) - 1 with hd
@@ -206,7 +206,7 @@ theorem isValid_WF (v : List Rat) (hsep : Separated v) (h : isValid v none = tru
   intro x hx
   have hpos : 0 < v.length := by omega
   -- the checked bound on the representatives
-  have hbound : ∀ k ∈ getUnique ((v.drop d).take (v.length - d - 1 + 1 - d)), cnt v k ≤ d + 1 := by
+  have hbound : ∀ k ∈ (v.drop d).take (v.length - d - 1 + 1 - d), cnt v k ≤ d + 1 := by
     intro k hk
     unfold isValid at h
     simp only [] at h
@@ -227,25 +227,25 @@ theorem isValid_WF (v : List Rat) (hsep : Separated v) (h : isValid v none = tru
   · rw [e2, ← getLastD_eq_nth v hpos]; omega
   -- x is neither end value: it sits in the slice v[d : npts+1]
   apply hbound
-  apply mem_getUnique_of_separated _ v _ hsep x
-  · obtain ⟨i, hi, rfl⟩ := List.mem_iff_getElem.mp hx
-    have hid : d ≤ i := by
-      by_contra c
-      have := prefix_eq_head v hs (d + 1) i (by rw [← headD_eq_nth]; exact hf) (by omega)
-      rw [nth_eq_getElem v i hi] at this
-      exact e1 this
-    have hiu : i ≤ v.length - d - 1 := by
-      by_contra c
-      have := suffix_eq_last v hs (d + 1) i (by rw [← getLastD_eq_nth v hpos]; exact hl) (by omega) hi
-      rw [nth_eq_getElem v i hi] at this
-      exact e2 this
-    rw [List.mem_iff_getElem]
-    refine ⟨i - d, by simp; omega, ?_⟩
-    simp only [List.getElem_take, List.getElem_drop]
-    congr 1
-    omega
-  · intro y hy
-    exact List.mem_of_mem_drop (List.mem_of_mem_take hy)
+  obtain ⟨i, hi, rfl⟩ := List.mem_iff_getElem.mp hx
+  have hid : d ≤ i := by
+    by_contra c
+    have := prefix_eq_head v hs (d + 1) i (by rw [← headD_eq_nth]; exact hf) (by omega)
+    rw [nth_eq_getElem v i hi] at this
+    exact e1 this
+  have hiu : i ≤ v.length - d - 1 := by
+    by_contra c
+    have := suffix_eq_last v hs (d + 1) i (by rw [← getLastD_eq_nth v hpos]; exact hl) (by omega) hi
+    rw [nth_eq_getElem v i hi] at this
+    exact e2 this
+  rw [List.mem_iff_getElem]
+  refine ⟨i - d, by simp; omega, ?_⟩
+  simp only [List.getElem_take, List.getElem_drop]
+  congr 1
+  omega
+
+theorem isValid_WF (v : List Rat) (_hsep : Separated v) (h : isValid v none = true) :
+    WF v (cnt v (v.headD 0) - 1) := isValid_WF_exact v h
 
 theorem mem_getUnique_subset (xs : List Rat) (k : Rat) (hk : k ∈ getUnique xs) : k ∈ xs := by
   unfold getUnique at hk
@@ -264,11 +264,11 @@ theorem WF_isValid (v : List Rat) (d : Nat) (hd : d = cnt v (v.headD 0) - 1) (h 
   have h1 : ¬ v.length < 2 := by omega
   have h2 : (!sortedLE v) = false := by simp [hs]
   have h3 : (!decide (2 * d + 1 < v.length)) = false := by simp [hn]
-  have h4 : (getUnique (List.take (v.length - d - 1 + 1 - d) (List.drop d v))).any
+  have h4 : (List.take (v.length - d - 1 + 1 - d) (List.drop d v)).any
       (fun k => decide (cnt v k > d + 1)) = false := by
     rw [List.any_eq_false]
     intro k hk
-    have : k ∈ v := List.mem_of_mem_drop (List.mem_of_mem_take (mem_getUnique_subset _ k hk))
+    have : k ∈ v := List.mem_of_mem_drop (List.mem_of_mem_take hk)
     have := hm k this
     simp only [decide_eq_true_eq, not_lt, ge_iff_le]
     omega
